@@ -3,4 +3,20 @@ from . import classlaws
 
 
 def build(repo, tier, seed):
-    return classlaws.bundle(repo, tier, seed, ("L6", "L6k", "L6v"), classes=classlaws.READY + ["Dataset"])
+    b = classlaws.bundle(repo, tier, seed, ("L6", "L6k", "L6v"), classes=classlaws.READY + ["Dataset"])
+    # "a failed evaluation stores nothing": nothing is stored at all outside the declared mutators and the cache backend
+    from . import frame_state
+    b["syntactic"] += frame_state.obligations(repo)
+    b["assumptions"].append("no hidden state: outside constructors and the declared mutators no method of a class reaching the labrea ABCs stores into its receiver, its class or a module global, "
+                            "changes a container held in a field in place, or is wrapped in a memoising decorator; no function changes a module-level container except the declared owners of the "
+                            "runtime and lock tables (AST frame, groups <Class>:frame and <module>:globals-frame)")
+    # user code that raises, in every position a user callable runs (bounded, real code): also the witness search when a class leaves the executor's subset
+    from harness import lawsearch
+    w, n = lawsearch.user_exception_search(seed, 6 if tier == "quick" else 40)
+    b.setdefault("bounded", []).append({"what": "law L6u: an exception raised by user code (predicate, function, step, body, callback, effect, domain) surfaces as an EvaluationError whose source is the "
+                                                "object evaluated and whose cause chain reaches the very exception raised; never a value",
+                                        "bounds": f"{len(lawsearch.USER_RECIPES)} expression shapes x {len(lawsearch.USER_EXC)} exception types (incl. StopIteration, KeyError, LookupError) x dictionaries", "cases": n})
+    b.setdefault("bounded_witnesses", [])
+    if w:
+        b["bounded_witnesses"].append(("user-code:L6u(bounded)", w))
+    return b
